@@ -6,7 +6,7 @@
 -/
 import HotXL.Model.Basic
 import HotXL.Model.Calendar
-import HotXL.Generated.Tables
+import HotXL.Generated.Operators
 
 namespace HotXL.Dates
 open HotXL
